@@ -94,6 +94,11 @@ def observe(universe, labels, full=True, only=None):
         for pat in ("*", "**", "*/*", "../*", "n?", "**/n1", "*/..", "/n0/*", "n1/n2", "..", "**/..", "**/../*", "**/**", "*/**/.."):
             o["glob:" + pat] = safe(lambda: LL(res.glob(node, pat)))
             o["rglob:" + pat] = safe(lambda: LL(relaxed.glob(node, pat)))
+        # a resolver whose path attribute no node has (every node then counts as named 'None')
+        orphan = Resolver("no_such_attribute", relax=True)
+        for pat in ("*", "None", "None/None", "x"):
+            o["noattr-glob:" + pat] = safe(lambda: LL(orphan.glob(node, pat)))
+            o["noattr-get:" + pat] = safe(lambda: L(orphan.get(node, pat)))
         for other in universe:
             o["common:%d" % L(other)] = LL(util.commonancestors(node, other))
             walk = safe(lambda: Walker().walk(node, other))
